@@ -228,6 +228,13 @@ func cmdCheck(args []string) int {
 					}
 				}
 			}
+			if o.Result.Verdict != "unsat" && o.Expect == "unsat" && o.QueryInst != "" {
+				r := Solve(o.QueryInst, smtDir, fmt.Sprintf("i%04d_%s", i, sanitize(o.Name)), 4*time.Second, true)
+				if r.Verdict == "unsat" {
+					r.Solver += "/instantiated"
+					o.Result = r
+				}
+			}
 			if o.Result.Verdict != "unsat" {
 				o.Result = Solve(o.Query, smtDir, fmt.Sprintf("q%04d_%s", i, sanitize(o.Name)), to, o.Expect != "sat")
 			}
